@@ -857,6 +857,31 @@ def gen_misc(repo, report):
           if left_side then ids_uses_left how else ids_uses_right how.
         '''))
 
+    # --- interface/edges.py Inverse._wrap: EVERY default-named argument of an @inverse function becomes a backward input (C10)
+    path = os.path.join(C, 'interface/edges.py')
+    src, tree = parse(path)
+    inv = find_class(tree, 'Inverse')
+    fn = find_func(inv.body, '_wrap')
+    note('Inverse._wrap', 'interface/edges.py', fn, src)
+    want = ("ifisinstance(output,Default):\noutput=InverseOutput(output.name)\nifnotisinstance(output,InverseOutput):\n"
+            "raiseFieldError(f\"Thefunctioncan'tbeinverted,becauseitsoutputisalreadyoftype{type(output)}\")\n"
+            "inputs=[replace_annotation(lambdaa:InverseInput(a.name)ifisinstance(a,Default)elsea,x)forxininputs]\n"
+            "yieldTypedEdge(edge,inputs,output)")
+    if norm(fn.body) != want:
+        fail(path, fn, 'Inverse._wrap changed')
+    out.append('Definition inverse_wrap_rule : string := "default output -> InverseOutput; every default input -> InverseInput".\n')
+    # containers/context.py: ChainContext.reverse runs the current context first, then the previous one
+    path = os.path.join(C, 'containers/context.py')
+    src, tree = parse(path)
+    cc = find_class(tree, 'ChainContext')
+    fn = find_func(cc.body, 'reverse')
+    note('ChainContext.reverse', 'containers/context.py', fn, src)
+    want = ("outputs,current_edges,current_optionals=self.current.reverse(outputs)\noutputs,previous_edges,previous_optionals=self.previous.reverse(outputs)\n"
+            "return(outputs,list(current_edges)+list(previous_edges),current_optionals|previous_optionals)")
+    if norm(fn.body) != want:
+        fail(path, fn, 'ChainContext.reverse changed')
+    out.append('Definition chain_reverse_order : string := "current first, then previous".\n')
+
     # --- library-owned callables stored in edges (C19): lambdas / nested defs passed to FunctionEdge(...) in connectome/layers
     sites = []
     for rel in ('layers/group.py', 'layers/split.py', 'layers/filter.py', 'layers/join.py', 'layers/merge.py',
